@@ -234,6 +234,11 @@ namespace GeographicLib {
     double Sum(double w) const { return _a * w + _a / (1 + w) + _a - _b; }
     double AltSum(double w) const { return _alt_a * w + _a / (1 + w) + _alt_a - _alt_b; }
     double _a = 1, _b = 2, _alt_a = 3, _alt_b = 4;
+    // SWP1: the sines are ordered, the cosines stay behind
+    static double Order(double sphi1, double cphi1, double sphi2, double cphi2) {
+      if (sphi1 > sphi2) { std::swap(sphi1, sphi2); }
+      return sphi1 * cphi2 - cphi1 * sphi2;
+    }
     // CP1: the northing clause is a copy of the easting clause with one name left behind
     static double Pad(double easting, double northing, double scale) {
       double w = 0;
